@@ -152,6 +152,8 @@ def long_docs():
         "<svg>" + "<g xlink:href='#a' xml:lang=en><circle r=1 /></g>" * 400 + "</svg>" + "<math><mi xlink:href=x>m</mi></math>" * 100,
         "<select>" + "<option>o<optgroup label=l>" * 400 + "</select>" + "<dl>" + "<dt>t<dd>d" * 400 + "</dl>",
         "x" * 1100 + "<b>" + " y" * 2000 + "</b>" + "&amp;" * 1200,
+        # ONE text node with hundreds of white-space runs of different shapes (any per-string limit on substitutions shows here)
+        "<p>" + "w \n x  y\t" * 220 + "</p><div>" + "a  b " * 300 + "\n\n c</div>",
     ]
 
 
